@@ -7,6 +7,7 @@
 """
 import csv
 import io
+import re
 import zipfile
 from xml.sax.saxutils import escape
 
@@ -28,6 +29,25 @@ def _xml_text(text, features, rng=None):
     paragraph is dropped and runs collapse to one blank, so blanks beyond a single inner one are
     written as text:s, tabs as text:tab, line breaks as text:line-break.  When a feature is off the
     generators never produce text that would need it (see ods_encodable)."""
+    if "spans" in features and len(text) % 2 == 1 and any(c in " \t\n" for c in text):
+        # every word in a span of its own (what a producer writes for alternating character styles): the white space
+        # between two spans - a literal blank, or elements - belongs to the text like the words do
+        out = []
+        parts = re.findall(r"[^ \t\n]+| +|\t|\n", text)
+        for k, part in enumerate(parts):
+            if part == "\t":
+                out.append("<text:tab/>")
+            elif part == "\n":
+                out.append("<text:line-break/>")
+            elif part[0] == " ":
+                between_words = 0 < k < len(parts) - 1 and parts[k - 1][0] not in " \t\n" and parts[k + 1][0] not in " \t\n"
+                if between_words:
+                    out.append(" " + ('<text:s text:c="%d"/>' % (len(part) - 1) if len(part) > 2 else "<text:s/>" if len(part) == 2 else ""))
+                else:
+                    out.append('<text:s text:c="%d"/>' % len(part) if len(part) > 1 else "<text:s/>")
+            else:
+                out.append('<text:span text:style-name="T1">%s</text:span>' % escape(part))
+        return "".join(out)
     out = []
     i = 0
     n = len(text)
